@@ -40,6 +40,7 @@ func New(config ...Config) fiber.Handler {
 		allowAllOrigins = true
 	}
 	for _, origin := range cfg.AllowOrigins {
+		origin = utils.Trim(origin, ' ')
 		if origin == "*" {
 			allowAllOrigins = true
 			break
